@@ -1,18 +1,20 @@
 #!/bin/bash
 # usage: tools/run_seeded.sh <property id> <patch.diff> [extra check ids...]
-# Applies a seeded change to /repo, runs the quick check(s), undoes the change. Prints one line per check.
+# Applies a seeded change to a scratch worktree of /repo's HEAD, runs the quick check(s) against it
+# (VERIF_REPO), removes the worktree. Prints one RESULT line per check. (/repo itself is not touched,
+# so that several people can work in parallel; the checks rebuild from whatever tree VERIF_REPO names.)
 set -u
 id=$1; patch=$(readlink -f $2); shift 2
 checks="$id $*"
+wt=/tmp/seedrun-$$
 cd /verif
-if ! git -C /repo diff --quiet; then echo "repo dirty, refusing"; exit 2; fi
-if ! git -C /repo apply --check "$patch" 2>/dev/null; then echo "patch does not apply: $patch"; exit 2; fi
-git -C /repo apply "$patch"
+git -C /repo worktree add --detach $wt HEAD >/dev/null 2>&1 || { echo "worktree failed"; exit 2; }
+trap "git -C /repo worktree remove --force $wt >/dev/null 2>&1" EXIT
+if ! git -C $wt apply "$patch" 2>/dev/null; then echo "patch does not apply: $patch"; exit 2; fi
 for c in $checks; do
-  out=$(VERIF_REPLAYS_TMP=1 ./check $c 2>&1); rc=$?
-  sig=$(echo "$out" | grep -o "VIOLATION property=[^ ]* replay=[^ ]* sig=[^ ]*" | head -3 | tr '\n' ' ')
-  echo "RESULT check=$c rc=$rc $(echo "$out" | grep "$c quick:" | tail -1) $sig"
+  out=$(VERIF_REPO=$wt ./check $c 2>&1); rc=$?
+  sig=$(echo "$out" | grep -ao "VIOLATION property=[^ ]* replay=[^ ]* sig=[^ ]*" | head -3 | tr '\n' ' ')
+  echo "RESULT check=$c rc=$rc $(echo "$out" | grep -a "$c quick:" | tail -1) $sig"
 done
-git -C /repo checkout -- . ; git -C /repo clean -fdq
 # replays created by a mutant run are not regressions of the real tree
 git -C /verif clean -fdq replays/
